@@ -488,8 +488,11 @@ structure HItem where
   ordered : Bool := false
   deriving Repr, DecidableEq
 
-/-- `parsedElement`; a table is its rows of cell texts (one per `<td>`/`<th>`, spans ignored by
-the writer), `none` = nil table pointer -/
+/-- `parsedElement` as the writer loop of `markdown` uses it: of a table it calls `ToMarkdown()`
+only, which is the plain writer on the texts of the table's grid (`renderHtmlSpan`), so a table is
+here its grid of texts — for a table without spans and with rows of equal length the rows of cell
+texts themselves (`HSrc.view` takes the reader's elements, cells with `colspan`/`rowspan`, to
+these); `none` = nil table pointer -/
 inductive HElem where
   | heading (level : Int) (text : Str)
   | para (text : Str)
@@ -498,6 +501,29 @@ inductive HElem where
   | code (text : Str)
   | quote (text : Str)
   deriving Repr, DecidableEq
+
+/-- `parsedElement` as the reader holds it (`VerifElements`): a table is `ParsedTable.Rows`, the
+cells of every row with their `ColSpan`/`RowSpan` -/
+inductive HSrc where
+  | heading (level : Int) (text : Str)
+  | para (text : Str)
+  | list (items : List HItem)
+  | table (rows : Option (List (List HCell)))
+  | code (text : Str)
+  | quote (text : Str)
+  deriving Repr, DecidableEq
+
+/-- what `markdown` sees of an element: of a table the grid `ToMarkdown` writes
+(`(*ParsedTable).grid`, Model/HtmlGrid.lean), as texts; the grid has one line per row, so
+`len(elem.Table.Rows) > 0` is `!rows.isEmpty` on either side -/
+def HSrc.view : HSrc → HElem
+  | .heading l t => .heading l t
+  | .para t => .para t
+  | .list items => .list items
+  | .table none => .table none
+  | .table (some rows) => .table (some (htmlGridTexts rows))
+  | .code t => .code t
+  | .quote t => .quote t
 
 /-- `"\n\n"` unless nothing has been written yet -/
 def sep2 (acc : Str) : Str := if acc.isEmpty then [] else [10, 10]
@@ -563,6 +589,12 @@ def htmlMarkdownRag (ext : Ext) (o : MdOpts) (m : HMeta) (els : List HElem) : St
 
 /-- `htmldoc.(*Reader).MarkdownWithOptions`: levels as they are -/
 def htmlMarkdownWithOptions (els : List HElem) : Str := htmlBody id els
+
+/-- the same entry points on the elements the reader holds (tables with their spans) -/
+def htmlMarkdownRagSrc (ext : Ext) (o : MdOpts) (m : HMeta) (els : List HSrc) : Str :=
+  htmlMarkdownRag ext o m (els.map HSrc.view)
+
+def htmlMarkdownWithOptionsSrc (els : List HSrc) : Str := htmlMarkdownWithOptions (els.map HSrc.view)
 
 /-! ### the reader's cache of filtered element lists (`getElements`) -/
 
